@@ -1701,7 +1701,7 @@ def generate_many(engine, initial, producer, selector=None, decycle=False,
             yield item
         else:
             yield selector(item)
-        produced = producer(item)
+        produced = utils.limit_iterable(producer(item), engine)
         if depth_first:
             len_before = len(queue)
             queue.extend(produced)
